@@ -399,6 +399,14 @@ def drv_functional(ctx, k, rng):
                          for v in xp.reshape(-1)[:8].to(F64).tolist()], dtype=F64)
     ctx.check(mon, bool(((u.reshape(-1)[:8].to(F64) - want).abs() <= rel * (want.abs() + 1)).all()), "isoelastic_utility",
               "isoelastic_utility != x^(1-a) / log x", sig=("isoelastic", str(x.dtype), ai), x=xp.reshape(-1)[:8], a=ai, got=u.reshape(-1)[:8])
+    # small positive wealth (down to the smallest normal numbers of the dtype): log / power are accurate relatively there
+    ctx.seen(mon)
+    lo_e = -36 if x.dtype == F32 else -300
+    xt = t(10.0 ** rng.uniform(lo_e, -3, 8), x.dtype)
+    u = F.isoelastic_utility(xt, ai)
+    want = torch.tensor([float(mpmath.log(mpmath.mpf(v)) if ai == 1.0 else mpmath.mpf(v) ** (1 - mpmath.mpf(ai))) for v in xt.to(F64).tolist()], dtype=F64)
+    ctx.check(mon, bool(((u.to(F64) - want).abs() <= 8 * rel * want.abs() + 1e-300).all()), "isoelastic_utility",
+              "isoelastic_utility != x^(1-a) / log x at small positive wealth", sig=("isoelastic_tiny", str(x.dtype), ai), x=xt, a=ai, got=u)
     if k < 5:
         ctx.sample({"driver": "functional", "shape": list(x.shape), "style": style, "scale": scale, "a": a, "p": p, "p_kind": pk,
                     "dim": dim, "lam": lam, "x_head": x.reshape(-1)[:6]})
